@@ -87,8 +87,46 @@ class World(SessionWorld):
         self.ops_left = 3 + ch.choose(12, "nops")
         self.tok = 0
 
+    sync_reply_for = None
+
     def on_sent(self, msg):
-        pass
+        # a transport may answer from inside send() (in-process routers do): the session's onMessage() is then
+        # re-entered while the application is still inside a handler
+        r2 = self.sync_reply_for
+        if r2 is not None and isinstance(msg, self.M.Call) and msg.procedure == r2.uri:
+            self.sync_reply_for = None
+            r2.progress_exp.append(("plain", ("nested-chunk", r2.token), {}))
+            self.run.probe("progressive-result-delivered-inside-send")
+            exc = self.deliver(self.M.Result(msg.request, args=["nested-chunk", r2.token], progress=True))
+            if exc is not None:
+                self.run.violate("C04.own-reply", "legal-reply-raised:Result:%s" % type(exc).__name__, "re-entrant progressive result: %r" % (exc,))
+
+    def nested_call(self, parent):
+        """issued from inside parent's progress handler; the router answers it with a progressive result from inside send()"""
+        from autobahn.wamp import types
+        S = self.session
+        r2 = Req()
+        r2.kind, r2.token, r2.state, r2.answered, r2.progress_got, r2.progress_exp, r2.replies, r2.cancelled = \
+            "call", self.new_token("call"), "pending", False, [], [], [], False
+        r2.expect = None
+        r2.args, r2.kwargs = (r2.token,), {}
+        r2.uri = "com.example.nested.%s" % r2.token
+        r2.opts = {"opt": "progress"}
+        expect_id = self.next_id()
+        n0 = len(self.t.sent)
+        self.run.log("app", "nested-call", r2.token, "inside progress handler of", parent.token)
+        self.run.probe("call-issued-inside-progress-handler")
+        self.sync_reply_for = r2
+        try:
+            fut = S.call(r2.uri, r2.token, options=types.CallOptions(on_progress=self.make_progress(r2)))
+        except Exception as e:  # noqa
+            self.run.violate("C04.one-request", "api-raised:call:%s" % type(e).__name__, "nested: %r" % (e,))
+            return
+        finally:
+            self.sync_reply_for = None
+        r2.fut = fut
+        r2.w = self.fw.watch(fut)
+        self.verify_request(r2, "call", n0, [48, expect_id, {"receive_progress": True}, r2.uri, [r2.token]], expect_id, fut)
 
     # --- actions -----------------------------------------------------------------------------------------
     def actions(self):
@@ -169,6 +207,7 @@ class World(SessionWorld):
                     if "progress" in opt:
                         kw["on_progress"] = self.make_progress(r)
                         wire["receive_progress"] = True
+                        r.reentrant = ch.flag("call-inside-progress-handler", 0.3)
                     if opt == "timeout":
                         kw["timeout"] = 12
                         wire["timeout"] = 12
@@ -327,6 +366,9 @@ class World(SessionWorld):
             else:
                 r.progress_got.append(("plain", tuple(jsonish(list(a))), jsonish(k)))
             self.run.log("on_progress", r.token)
+            if getattr(r, "reentrant", False) and self.t.attached and self.t.closing is None:
+                r.reentrant = False
+                self.nested_call(r)
         return on_progress
 
     def make_handler(self, r):
